@@ -340,7 +340,10 @@ fn verify(case: &Case, shared: &Shared, opened_by_client: impl Fn(usize) -> bool
 
 async fn exec_wt_wt(case: Arc<Case>) -> CaseResult {
     let t = tuning(&case);
-    let pair = match wt_pair(&t, &t).await {
+    // with default windows, half of the cases use endpoints built through the library's default
+    // builder paths (default transport configuration) instead of a custom transport
+    let default_paths = window_bytes(case.window).is_none() && case.cut % 2 == 0;
+    let pair = match if default_paths { wt_pair_default().await } else { wt_pair(&t, &t).await } {
         Ok(p) => p,
         Err(e) => return CaseResult::Skip(e),
     };
